@@ -143,3 +143,24 @@ Proof.
     destruct (Z.leb_spec (string_compare s t) 0); [|lia]. destruct (Z.leb_spec 0 (string_compare s t)); [|lia].
     repeat split.
 Qed.
+
+(* a string equals nothing but a string, a raw value nothing but a raw value, on either side *)
+Theorem string_equals_only_strings : forall s v,
+  (forall t, v <> JStr t) -> op_eq (JStr s) v = false /\ op_eq v (JStr s) = false.
+Proof.
+  intros s v H. unfold op_eq. split.
+  - rewrite compare_scalar_r by (intros; discriminate).
+    destruct v; try reflexivity. exfalso. eapply H. reflexivity.
+  - rewrite compare_scalar by (intros; discriminate).
+    destruct v; try reflexivity. exfalso. eapply H. reflexivity.
+Qed.
+
+Theorem raw_equals_only_raw : forall s v,
+  (forall t, v <> JRaw t) -> op_eq (JRaw s) v = false /\ op_eq v (JRaw s) = false.
+Proof.
+  intros s v H. unfold op_eq. split.
+  - rewrite compare_scalar_r by (intros; discriminate).
+    destruct v; try reflexivity. exfalso. eapply H. reflexivity.
+  - rewrite compare_scalar by (intros; discriminate).
+    destruct v; try reflexivity. exfalso. eapply H. reflexivity.
+Qed.
